@@ -359,21 +359,42 @@ def extract_block(stmts, opaque_loops=False):
     return done
 
 
-def eval_atom(src, mapping):
-    """Evaluate an atomic condition under a scenario.  `mapping` is a list of (sub-expression source, python value); occurrences are
-    replaced longest-first by the literal and the result is constant-folded.  Raises AnalysisError when the atom cannot be decided."""
+class _Scenario(ast.NodeTransformer):
+    def __init__(self, mapping):
+        self.mapping = dict(mapping)
+
+    def visit(self, node):
+        if isinstance(node, ast.expr):
+            k = norm(node)
+            if k in self.mapping:
+                return ast.copy_location(ast.Constant(value=self.mapping[k]), node)
+        return self.generic_visit(node)
+
+
+def eval_atom(src, mapping, default=AnalysisError):
+    """Evaluate an atomic condition under a scenario.  `mapping` is a list of (sub-expression source, python value); every sub-expression
+    whose normalised source equals a key is replaced (outermost first) by the literal and the result is constant-folded.  Raises AnalysisError
+    when the atom cannot be decided (or returns `default` when one is given)."""
     from .astutil import const_value
 
-    for k, v in sorted(mapping, key=lambda kv: -len(kv[0])):
-        src = src.replace(k, "(%s)" % repr(v))
     try:
         e = ast.parse(src, mode="eval").body
     except SyntaxError:
-        raise AnalysisError("decision table: atom not parseable after substitution: %s" % src)
+        if default is not AnalysisError:
+            return default
+        raise AnalysisError("decision table: atom not parseable: %s" % src)
+    e = _Scenario([(norm(ast.parse(k, mode="eval").body), v) for k, v in mapping]).visit(e)
     ok, v = const_value(e)
     if not ok:
+        if default is not AnalysisError:
+            return default
         raise AnalysisError("decision table: atom not decidable in the scenario domain: %s" % src)
     return bool(v)
+
+
+def compatible(paths, mapping):
+    """paths not contradicted by the scenario (atoms the scenario cannot decide are left open)"""
+    return [p for p in paths if all(eval_atom(s, mapping, None) in (t, None) for s, t, _ in p.conds)]
 
 
 def feasible(paths, mapping):
